@@ -349,6 +349,8 @@ def sequences_stage(run, want):
 
 
 def plan_C14(run):
+    # unbounded: TLAPS proves the two thread theorems of Threads.tla for any number of threads and reads (auxiliary)
+    mc.tlaps_threads(run)
     sequences_stage(run, {"C14"})
     pairs = [(a, b) for a in range(0, 31, 3) for b in range(0, 31, 3)] if run.tier == "thorough" else None
     threads_stage(run, q(run, 60, 400), None)
